@@ -572,7 +572,7 @@ Section Closed.
       apply find_topic_some in F. destruct F as [Li Ti]. apply topic_named_facts in Ti. destruct Ti as (T1 & T2 & T3).
       destruct (d_pc (getD (x_dats x) i)) as [|[|n]]; auto.
       destruct (d_todo (getD (x_dats x) i)); auto.
-      apply get_channel_P; auto.
+      apply set_dat_P. apply get_channel_P; auto.
     - (* ChanCreate *)
       destruct (find_topic (x_objs x) t) as [i|] eqn:F; auto.
       apply find_topic_some in F. destruct F as [Li Ti]. apply topic_named_facts in Ti. destruct Ti as (T1 & T2 & T3).
